@@ -11,6 +11,7 @@ import GqlVerif.Proofs.C01NestedAbsE
 import GqlVerif.Proofs.C01AliasFragK
 import GqlVerif.Proofs.C01NestedGenE
 import GqlVerif.Proofs.C01NestedGenXE
+import GqlVerif.Proofs.C01NestedBE
 open GqlVerif.C17
 #print axioms search_guarded_eq
 #print axioms search_guarded_total
@@ -128,3 +129,5 @@ open GqlVerif.C17
 -- NestedGenOp / NestedGen2Op (P47)
 #print axioms GqlVerif.C01NG.nestedgen_module_envOK
 #print axioms GqlVerif.C01NX.nestedgen2_module_envOK
+-- NestedBOp (P49)
+#print axioms GqlVerif.C01NB.nestedb_module_envOK
